@@ -758,7 +758,7 @@ func (u *Unit) specCall(env *specEnv, x *ast.CallExpr) Val {
 		v := u.specEval(env, x.Args[0])
 		var b strings.Builder
 		printNode(&b, u.eng.fset, x.Args[1])
-		_, T, _ := env.specType(b.String())
+		_, T, _ := env.specType(strings.Join(strings.Fields(b.String()), ""))
 		if T == nil {
 			env.fail("unbox: unknown type")
 		}
@@ -767,7 +767,7 @@ func (u *Unit) specCall(env *specEnv, x *ast.CallExpr) Val {
 		v := u.specEval(env, x.Args[0])
 		var b strings.Builder
 		printNode(&b, u.eng.fset, x.Args[1])
-		_, T, _ := env.specType(b.String())
+		_, T, _ := env.specType(strings.Join(strings.Fields(b.String()), ""))
 		if T == nil {
 			env.fail("hastype: unknown type")
 		}
@@ -776,7 +776,7 @@ func (u *Unit) specCall(env *specEnv, x *ast.CallExpr) Val {
 		// typeid(T) : the dynamic type tag of Go type T
 		var b strings.Builder
 		printNode(&b, u.eng.fset, x.Args[0])
-		_, T, _ := env.specType(b.String())
+		_, T, _ := env.specType(strings.Join(strings.Fields(b.String()), ""))
 		return intVal(u.typeID(T))
 	case "cast":
 		// cast(v, T): v viewed at Go type T (the dynamic type is assumed, e.g. the single implementation of an interface)
